@@ -1,5 +1,6 @@
 #include "TilesetHeaders.h"
 #include "TilesetCommon.h"
+#include <cstdint>
 
 namespace OP2Utility::Tileset
 {
@@ -36,6 +37,12 @@ namespace OP2Utility::Tileset
 
 		if (tagCount != DefaultTagCount) {
 			throwReadError("Header tag count", tagCount, DefaultTagCount);
+		}
+
+		// The height becomes the (negated) 32 bit signed height of a top down bitmap
+		if (pixelHeight > static_cast<uint32_t>(INT32_MAX)) {
+			throw std::runtime_error("Tileset property Pixel Height reads " + std::to_string(pixelHeight) +
+				", which is too large to represent as a bitmap height.");
 		}
 	}
 
